@@ -1,3 +1,199 @@
-/-! C14 property theorems — stub (not built yet). -/
+import TTProofs.Lemmas.C14_Real
+import TTProofs.Lemmas.C11_Eval
+import TTModel.C14_Protocol
+import TTModel.C11_Table
+/-!
+# C14 — variational objectives are exact at the true posterior
+
+`w[s][k] = log p(z, data) − log q(z)`.  If `q` is the posterior, `w` is the constant `log Z`
+(`bayes_constant`); every estimator, with the reductions exactly as coded
+(`TTModel/C14_Objectives.lean`, tied to the real classes by the stub correspondence of
+`./check C14`), then returns that constant for every sample shape (`tight_*`).  Expressing the
+model through a bijection adds the same reported log-Jacobian to both densities and leaves `w`
+unchanged (`jacobian_bookkeeping`).  After a draw, the model density and the variational density are
+evaluated at the same parameter values (`paired_samples`, on the C11 machine).  Every request
+draws afresh (`fresh_draw_each_request`, for the `__call__` the generated table shows).
+-/
 namespace TTProps.C14
+open TT TT.C14
+
+/-! ### tightness: constant log-weights `c` ⇒ every estimator returns `c` -/
+
+/-- ELBO, sample shape `[S]`, any `S ≥ 1` -/
+theorem tight_elbo (w : List ℝ) (c : ℝ) (hS : w ≠ []) (h : ∀ x ∈ w, x = c) : elbo w = c := by
+  rw [const_list h]
+  exact mean_replicate _ (by simpa using hS) c
+
+/-- multi-sample (importance-weighted) ELBO, sample shape `[S, K]`, any `S, K ≥ 1` -/
+theorem tight_elboMulti (w : List (List ℝ)) (c : ℝ) (hS : w ≠ [])
+    (h : ∀ row ∈ w, row ≠ [] ∧ ∀ x ∈ row, x = c) : elboMulti w = c := by
+  unfold elboMulti
+  have hc := rows_const h (fun row => lse row - Trans.log (natTo row.length)) (by
+    intro n
+    simp only [lse_replicate, List.length_replicate, natTo_real, trans_log_real]
+    push_cast; ring)
+  rw [const_list hc]
+  exact mean_replicate _ (by simpa using hS) c
+
+/-- Rényi bound, sample shape `[K]`, any order `a ≠ 1` -/
+theorem tight_vr1 (a : ℝ) (ha : a ≠ 1) (w : List ℝ) (c : ℝ) (hK : w ≠ []) (h : ∀ x ∈ w, x = c) :
+    vr1 a w = c := by
+  rw [const_list h]
+  obtain ⟨n, hn⟩ : ∃ n, w.length = n + 1 := ⟨w.length - 1, by have := List.length_pos_iff.mpr hK; omega⟩
+  rw [hn]; exact vrRow_const a c ha n
+
+/-- Rényi bound, sample shape `[S, K]` (rows averaged — the repaired reduction, F16) -/
+theorem tight_vr (a : ℝ) (ha : a ≠ 1) (w : List (List ℝ)) (c : ℝ) (hS : w ≠ [])
+    (h : ∀ row ∈ w, row ≠ [] ∧ ∀ x ∈ row, x = c) : vr a w = c := by
+  unfold vr
+  have hne : (1 - a) ≠ 0 := sub_ne_zero.mpr (Ne.symm ha)
+  have hc := rows_const (c := c) h (fun row => vrRow a row / (1 - a)) (vrRow_const a c ha)
+  have hc' : ∀ y ∈ w.map (vrRow a), y = c * (1 - a) := by
+    intro y hy
+    obtain ⟨row, hrow, rfl⟩ := List.mem_map.mp hy
+    have := hc _ (List.mem_map.mpr ⟨row, hrow, rfl⟩)
+    field_simp at this
+    linarith
+  rw [const_list hc', mean_replicate _ (by simpa using hS)]
+  field_simp
+
+/-- the reduction VR had before F16 (rows summed) is NOT tight: two rows of one sample give `2c` -/
+theorem vrSum_not_tight : ∃ (w : List (List ℝ)) (c : ℝ),
+    (∀ row ∈ w, row ≠ [] ∧ ∀ x ∈ row, x = c) ∧ vrSum 0 w ≠ c := by
+  refine ⟨[[1], [1]], 1, ?_, ?_⟩
+  · intro row hrow
+    simp only [List.mem_cons, List.not_mem_nil, or_false, or_self] at hrow
+    subst hrow; simp
+  · simp [vrSum, vrRow, lse, maxL, natTo]
+
+/-- chi upper bound, any sample shape (flattened), any order `n` -/
+theorem tight_cubo (n : ℝ) (w : List ℝ) (c : ℝ) (hS : w ≠ []) (h : ∀ x ∈ w, x = c) : cubo n w = c := by
+  rw [const_list h]
+  obtain ⟨k, hk⟩ : ∃ k, w.length = k + 1 := ⟨w.length - 1, by have := List.length_pos_iff.mpr hS; omega⟩
+  rw [hk]
+  unfold cubo
+  simp only [maxL_replicate, List.map_replicate, sub_self, trans_exp_real, Real.exp_zero, trans_pow_real,
+    Real.one_rpow, trans_log_real]
+  rw [mean_replicate _ (by omega)]
+  simp
+
+/-- self-normalised inclusive-KL estimate, sample shape `[S]` -/
+theorem tight_klpq (w : List ℝ) (c : ℝ) (hS : w ≠ []) (h : ∀ x ∈ w, x = c) : klpq w = c := by
+  rw [const_list h]
+  obtain ⟨k, hk⟩ : ∃ k, w.length = k + 1 := ⟨w.length - 1, by have := List.length_pos_iff.mpr hS; omega⟩
+  rw [hk]; exact klpqRow_const c k
+
+/-- self-normalised inclusive-KL estimate, sample shape `[S, K]` (the repaired reduction, F17) -/
+theorem tight_klpq2 (w : List (List ℝ)) (c : ℝ) (hS : w ≠ [])
+    (h : ∀ row ∈ w, row ≠ [] ∧ ∀ x ∈ row, x = c) : klpq2 w = c := by
+  unfold klpq2
+  have hc := rows_const h klpqRow (klpqRow_const c)
+  rw [const_list hc]
+  exact mean_replicate _ (by simpa using hS) c
+
+/-- what KLpq computed on `[S, K]` before F17 when the broadcast happened to be legal (`S = K`) is
+NOT tight: `S·c` -/
+theorem klpq2Broadcast_not_tight : ∃ (w : List (List ℝ)) (c : ℝ),
+    (∀ row ∈ w, row ≠ [] ∧ ∀ x ∈ row, x = c) ∧ klpq2Broadcast w ≠ c := by
+  refine ⟨[[1, 1], [1, 1]], 1, ?_, ?_⟩
+  · intro row hrow
+    simp only [List.mem_cons, List.not_mem_nil, or_false, or_self] at hrow
+    subst hrow; simp
+  · have h2 : lse ([1, 1] : List ℝ) = 1 + Real.log 2 := by
+      have := lse_replicate 1 1
+      simpa [List.replicate, one_add_one_eq_two] using this
+    have he : Real.exp (1 - (1 + Real.log 2)) = 1 / 2 := by
+      rw [show (1 : ℝ) - (1 + Real.log 2) = -Real.log 2 by ring, Real.exp_neg,
+        Real.exp_log (by norm_num : (0 : ℝ) < 2)]
+      norm_num
+    simp only [klpq2Broadcast, List.map_cons, List.map_nil, h2, List.zip_cons_cons, List.zip_nil_right,
+      trans_exp_real, he, List.sum_cons, List.sum_nil]
+    norm_num
+
+/-- the analytic-entropy ELBO is `mean log p + H(q)`: no per-draw equality with `log Z` is claimed
+(it holds in expectation only); when the draws make `log p` constant the formula is that constant
+plus the entropy -/
+theorem elboEntropy_formula (logp h : List ℝ) (c : ℝ) (hS : logp ≠ []) (hc : ∀ x ∈ logp, x = c) :
+    elboEntropy logp h = c + h.sum := by
+  unfold elboEntropy
+  rw [const_list hc, mean_replicate _ (by simpa using hS)]
+
+/-! ### why the log-weights are constant at the posterior -/
+
+/-- **bayes_constant**: if `q = joint / Z` pointwise then `log joint − log q = log Z` at every point -/
+theorem bayes_constant (joint q : ℝ) (Z : ℝ) (hj : 0 < joint) (hZ : 0 < Z) (hq : q = joint / Z) :
+    Real.log joint - Real.log q = Real.log Z := by
+  rw [hq, Real.log_div hj.ne' hZ.ne']
+  ring
+
+/-- **jacobian_bookkeeping**: when model and variational family are both expressed in unconstrained
+coordinates `y` (`z = T y`), each density carries the SAME reported log-Jacobian `J y`; the
+log-weight is unchanged, whatever value is reported -/
+theorem jacobian_bookkeeping (logp logq J : ℝ) : (logp + J) - (logq + J) = logp - logq := by
+  ring
+
+/-! ### paired samples and fresh draws -/
+
+open TT.C11 in
+/-- **paired_samples** (on the C11 machine): in any state satisfying the cache-coherence invariant
+— in particular right after a draw, `wellwired_no_stale` — calling the getter of `q` and then the
+getter of `p` returns the fresh values of both AT THE SAME leaf values: the first call does not move
+any parameter, and neither returns a value cached from an earlier draw. -/
+theorem paired_samples {V : Type} [Inhabited V] (m : Machine) (hwf : WF m) (F : Nat → List V → V)
+    (s : State V) (hs : Inv m F s) (qc pc : Nat) (hq : qc < m.nC) (hp : pc < m.nC) :
+    (evalF m F m.nC qc true s).1 = freshF m F s.leaf m.nC qc ∧
+    (evalF m F m.nC pc true (evalF m F m.nC qc true s).2).1 = freshF m F s.leaf m.nC pc := by
+  have h1 := evalF_spec m hwf F m.nC qc hq hq true s hs
+  have h2 := evalF_spec m hwf F m.nC pc hp hp true _ h1.2.1
+  exact ⟨h1.1, by rw [h2.1, h1.2.2]⟩
+
+/-- with the inherited `CallableModel.__call__` a second request without a notification in between
+answers from the first draw (F18) … -/
+theorem cached_request_reuses_draw :
+    runObj true initObj [.request, .request] = [1, 1] := by decide
+
+/-- … **fresh_draw_each_request**: a `__call__` without the flag test answers the `k`-th request
+from the `k`-th draw, whatever notifications arrive in between -/
+theorem fresh_draw_each_request (evs : List Ev) (s : ObjState) :
+    runObj false s evs = (List.range (evs.count .request)).map (fun i => s.draws + i + 1) := by
+  induction evs generalizing s with
+  | nil => simp [runObj]
+  | cons e es ih =>
+    cases e with
+    | notify =>
+      simp only [runObj, stepObj]
+      rw [ih]
+      simp
+    | request =>
+      simp only [runObj, stepObj, Bool.false_and, Bool.false_eq_true, if_false]
+      rw [ih]
+      simp only [List.count_cons_self, List.range_succ_eq_map, List.map_cons, List.map_map]
+      congr 1
+      · apply List.map_congr_left
+        intro i _
+        simp only [Function.comp]
+        omega
+
+/-- the objective classes of torchtree recompute on every request: none of them has a
+`lp_needs_update` guard in its `__call__` (generated table) -/
+theorem objectives_always_redraw :
+    ∀ n ∈ ["ELBO", "KLpq", "KLpqImportance", "SELBO", "VR", "CUBO"],
+      ((TTGen.C11_Wiring.find n).guards.any fun g => g.impl == "__call__") = false ∧
+      (TTGen.C11_Wiring.find n).name = n := by
+  decide
+
+/-! ### non-vacuity -/
+example : elbo ([3, 3, 3] : List ℝ) = 3 := tight_elbo _ 3 (by simp) (by simp)
+example : elboMulti ([[2, 2], [2, 2], [2, 2]] : List (List ℝ)) = 2 :=
+  tight_elboMulti _ 2 (by simp) (by
+    intro row hrow
+    simp only [List.mem_cons, List.not_mem_nil, or_false, or_self] at hrow
+    subst hrow; simp)
+example : vr (1 / 2) ([[2, 2], [2, 2]] : List (List ℝ)) = 2 :=
+  tight_vr _ (by norm_num) _ 2 (by simp) (by
+    intro row hrow
+    simp only [List.mem_cons, List.not_mem_nil, or_false, or_self] at hrow
+    subst hrow; simp)
+example : runObj false initObj [.request, .request, .notify, .request] = [1, 2, 3] := by decide
+
 end TTProps.C14
